@@ -20,7 +20,9 @@ SHARD_TIMEOUT = {"quick": 200, "thorough": 2400}
 
 PROTOS = ["PYRO", "pyro", "PyRo", "PYRONAME", "pyroname", "PyroName", "PYROMETA", "pyrometa", "PyroMeta", "PYROX", "PYR", "PYRONAMES", "pYRO"]
 OBJECTS = ["obj", "Pyro.NameServer", "Pyro.Daemon", "obj_1.x-y", "a@b", "@", "a@", "@a", "o!#$%^&*()", "ö", "\U0001F600", "a:b", "a,b", ",", "a,,b", ",a",
-           "a,", " a", "x" * 60, "0", "[", "./u:x", "PYRO:x", "a/b?c=d", "a b", "tab\tx", "", "a,a", "b,a", "a,b,c,d,e,f,g,h", "é,e,E", ",,"]
+           "a,", " a", "x" * 60, "0", "[", "./u:x", "PYRO:x", "a/b?c=d", "a b", "tab\tx", "", "a,a", "b,a", "a,b,c,d,e,f,g,h", "é,e,E", ",,",
+           # percent sequences are ordinary characters of a name (no escaping layer exists): they stay what they are
+           "a%40b", "job%2540queue", "big%2541pple", "two%20words", "%", "%25", "100%", "a%zzb", "%40", "t%2Cu,v", "x%3A1"]
 HOSTS = ["localhost", "127.0.0.1", "0.0.0.0", "host.example.com", "h", "0", "[::1]", "[fe80::1%3]", "[::]", "[1:2:3:4:5:6:7:8]", "[::1]junk", "[[::1]]",
          "[::1", "::1", "[zz::1]", "[::ffff:1.2.3.4]", "", " ", " h", "h ", "a@b", "<<connected-socket>>", "HOST", "ho st", "h\tx", "ö.example", "./U:x", "./u", "[]", "[%]", "[:]"]
 PORTS = ["1", "0", "00", "+0", "-0", "55", "+55", "-1", "09090", "9090", "65535", "65536", "99999999", "4_000", " 77", "77 ", " 77 ", "５５", "٣", "1e3", "0x10",
